@@ -6,4 +6,4 @@ Extraction "extract/ModelProc.ml"
   GenProc.default_caps GenProc.mkCaps GenProc.caps_fields
   Proc.command_new Proc.push_arg Proc.set_cwd Proc.set_env Proc.set_stdin Proc.set_stdout
   Proc.set_stderr Proc.set_timeout Proc.validate Proc.mkPolicy Proc.run_once Proc.run_script
-  Proc.apply_call.
+  Proc.apply_call Proc.spec_lookup Proc.spec_argv.
